@@ -109,17 +109,16 @@ theorem dfsOk_of_rows (T : Array DirEntry) (strict : Bool) (sl : Row → Nat × 
   | leaf => intros; trivial
   | node l e k r ihl ihk ihr =>
     intro hrow wf rb hs
-    obtain ⟨wl, wr, wk, hlt, hgt, _⟩ := wf
+    obtain ⟨wl, wr, wk, hlt, hgt, hstream⟩ := wf
     simp only [Tree.rows, List.mem_append, List.mem_singleton] at hrow
     simp only [Tree.slots, List.mem_append, List.mem_singleton] at hs
     refine ⟨ihl (fun r hr => hrow r (Or.inl (Or.inl (Or.inl hr)))) wl (fun h => (rb h).1) (fun s h => hs s (Or.inl (Or.inl (Or.inl h)))),
       ihk (fun r hr => hrow r (Or.inl (Or.inr hr))) wk (fun h => (rb h).2.1) (fun s h => hs s (Or.inl (Or.inr h))),
       ihr (fun r hr => hrow r (Or.inr hr)) wr (fun h => (rb h).2.2.1) (fun s h => hs s (Or.inr h)),
-      (hs e.slot (Or.inl (Or.inl (Or.inr rfl)))).1, (hs e.slot (Or.inl (Or.inl (Or.inr rfl)))).2, ?_, ?_, ?_, ?_⟩
+      (hs e.slot (Or.inl (Or.inl (Or.inr rfl)))).1, (hs e.slot (Or.inl (Or.inl (Or.inr rfl)))).2, ?_, hstream, ?_, ?_, ?_⟩
     · have := hrow _ (Or.inl (Or.inl (Or.inr rfl)))
       refine ⟨_, this, rfl, ?_, rfl, ?_, ?_, ?_⟩
       · simp only [entryOf]
-        cases e.isStream <;> simp
       · simp only [entryOf]; exact linkOf_rootSlot l
       · simp only [entryOf]; exact linkOf_rootSlot r
       · simp only [entryOf]; exact linkOf_rootSlot k
